@@ -50,20 +50,20 @@ Predicted(mon, cc, m) ==
 Drifts(r, m) ==
   LET cc == r.c IN
   (IF Acc(r.v1) # m.v THEN {"verdict: model " \o m.v \o ", library " \o Acc(r.v1)} ELSE {})
-  \cup (IF Acc(r.v1) = m.v /\ (Acc(r.v2) # m.v2 \/ r.same # m.same) THEN {"side effect predicted by the model of the code as written is absent"} ELSE {})
+  \cup (IF Acc(r.v1) = m.v /\ (Acc(r.v2) # m.v2 \/ r.same # m.same)
+          THEN {"second verdict / byte preservation differs from the model of the code as written"} ELSE {})
   \cup (IF ~r.v1 /\ m.v = "reject" /\ (r.stage # m.stage \/ r.eq # m.eq)
           THEN {"failing equation: model " \o m.stage \o "/" \o m.eq \o ", library " \o r.stage \o "/" \o r.eq} ELSE {})
   \cup (IF r.changed # m.changed THEN {"perturbation changes the object in the model only or in the library only"} ELSE {})
 
+\* exactly one REC line per result (the engine checks the count)
 Report(r, m) ==
-  LET cc == r.c IN
-  /\ \A mon \in Violated(r, m) :
-        PrintT(<<"VIOL", ToJson([id |-> r.id, mon |-> mon, sch |-> cc.sch, obj |-> cc.obj, field |-> cc.field, kind |-> cc.kind,
-                                 stage |-> r.stage, eq |-> r.eq, predicted |-> Predicted(mon, cc, m)])>>)
-  /\ \A d \in Drifts(r, m) : PrintT(<<"DRIFT", ToJson([id |-> r.id, kind |-> d])>>)
-  /\ (MustReject(cc) /\ m.changed /\ m.v = "accept") =>
-        PrintT(<<"UNBOUND", ToJson([id |-> r.id, sch |-> cc.sch, obj |-> cc.obj, field |-> cc.field, kind |-> cc.kind, real |-> Acc(r.v1)])>>)
-  /\ m.collide => PrintT(<<"COLLIDE", ToJson([id |-> r.id])>>)
+  LET cc == r.c
+      vs == Violated(r, m) IN
+  PrintT(<<"REC", ToJson([id |-> r.id, sch |-> cc.sch, obj |-> cc.obj, field |-> cc.field, kind |-> cc.kind, stage |-> r.stage, eq |-> r.eq,
+                          viol |-> vs, predicted |-> {mon \in vs : Predicted(mon, cc, m)}, drift |-> Drifts(r, m),
+                          unbound |-> (MustReject(cc) /\ m.changed /\ m.v = "accept"), real |-> Acc(r.v1),
+                          collide |-> m.collide, model |-> m.v])>>)
 
 TInit == /\ l \in 1..Len(Results)
          /\ c = Results[l].c /\ ph = "todo" /\ res = <<>>
